@@ -135,6 +135,9 @@ func main() {
 	case "tunfail":
 		scenarioTunFail(*stacks)
 		return
+	case "sendinflight":
+		scenarioSendInFlight(*stacks)
+		return
 	}
 	if err := os.MkdirAll(*out, 0o755); err != nil {
 		panic(err)
